@@ -18,7 +18,7 @@ from harness.rfworld import Wire
 META = dict(
     level='model_checking',
     level_text='every interleaving of send / respond / failure / late-response events (bounded) on the real Connection code, with the failure kind and point symbolic and the number of pending requests crossing the thread-offload threshold; z3 decides each path',
-    level_note='task-level schedules: the failure is injected between events, not between two bytecodes of send_msg; the offloaded error thread is run as a deferred task; transport and codec are harness fakes',
+    level_note='task-level schedules, plus (race-* jobs) one pre-emption by another thread - a send, a failure of the connection from a non-event-loop thread, the offloaded error thread - at any acquire/release of the connection lock reached while no lock is held; event-loop work (responses, pages, first-response handling, decode/protocol errors) never overlaps itself; the failure is otherwise injected between events, not between two bytecodes of send_msg; the offloaded error thread is run as a deferred task; transport and codec are harness fakes',
     technique='symbolic execution (sx proxies) of the real Connection.defunct/error_all_requests/process_msg/send_msg over solver-enumerated event histories + z3 validity per path',
     bounds=dict(quick='<= 3 requests + <= 1 continuous paging session, histories of <= 5 events, failure kinds {socket error, socket error while a send is inside push(), decode error, ProtocolException response, close()}, CALLBACK_ERR_THREAD_THRESHOLD patched to 2',
                 thorough='<= 4 requests, histories of <= 7 events'),
@@ -80,7 +80,7 @@ def _rows(tag, last=False):
     return r
 
 
-def h_history(V, steps=5, nreq=3, with_cp=True):
+def h_history(V, steps=5, nreq=3, with_cp=True, race=False):
     world = kit.World()
     DeferredThread.pending = []
     cconn.Thread = DeferredThread
@@ -88,12 +88,12 @@ def h_history(V, steps=5, nreq=3, with_cp=True):
     Connection.CALLBACK_ERR_THREAD_THRESHOLD = 2
     cconn.ContinuousPagingSession = CPSession
     try:
-        return _run(V, world, steps, nreq, with_cp)
+        return _run(V, world, steps, nreq, with_cp, race)
     finally:
         Connection.CALLBACK_ERR_THREAD_THRESHOLD = old_thr
 
 
-def _run(V, world, steps, nreq, with_cp):
+def _run(V, world, steps, nreq, with_cp, race=False):
     conn = kit.FakeConnection('10.0.0.1', protocol_version=4)
     wire = Wire(world)
     got = {}         # tag -> list of things delivered to its callback
@@ -109,7 +109,9 @@ def _run(V, world, steps, nreq, with_cp):
     def frame(stream):
         return _Frame(4, 0, stream, 8, 9, 9)
 
-    for step in range(steps):
+    running = []
+
+    def do(step):
         ev = []
         if sent[0] < nreq:
             ev.append('send')
@@ -123,8 +125,22 @@ def _run(V, world, steps, nreq, with_cp):
             ev.append('fail')
         if DeferredThread.pending:
             ev.append('thread')
-        e = ev[V.choice('ev%d' % step, len(ev))]
-        V.tag('e%d' % step, e if isinstance(e, str) else e[0])
+        if running:
+            # a pre-empting event belongs to another thread: what the event-loop thread does (deliver a response or a
+            # page, start a paging session from a first response, hit a decode/protocol error) never overlaps itself
+            if any(r in LOOP_EVENTS for r in running):
+                ev = [x for x in ev if (x if isinstance(x, str) else x[0]) not in LOOP_EVENTS]
+        if not ev:
+            return
+        e = ev[V.choice('ev%s' % step, len(ev))]
+        running.append(e if isinstance(e, str) else e[0])
+        try:
+            _event(step, e)
+        finally:
+            running.pop()
+
+    def _event(step, e):
+        V.tag('e%s' % step, e if isinstance(e, str) else e[0])
         if e == 'send':
             sent[0] += 1
             tag = sent[0]
@@ -132,7 +148,7 @@ def _run(V, world, steps, nreq, with_cp):
                 with conn.lock:
                     rid = conn.get_request_id()
                     conn.in_flight += 1
-                if not failed[0] and V.flag('socket_error_during_push_%d' % tag):
+                if not failed[0] and not any(r in LOOP_EVENTS for r in running) and V.flag('socket_error_during_push_%d' % tag):
                     # the event-loop thread hits a socket error while this thread is inside push()
                     def fault(c, data, _t=tag):
                         world.push_fault = None
@@ -140,13 +156,15 @@ def _run(V, world, steps, nreq, with_cp):
                         c.defunct(OSError(32, 'broken pipe'))
                         return None
                     world.push_fault = fault
+                # (race jobs: `failed` is set when the failing thread starts; what send_msg can know is whether the
+                # connection was already marked at the moment it was entered)
+                was_dead = (conn.is_defunct or conn.is_closed) if race else failed[0]
                 conn.send_msg(('msg', tag), rid, cb_for(tag), encoder=wire.encode_message, decoder=wire.decode_message)
                 if failed[0] == 'socket-error-during-push':
                     outstanding.pop(rid, None)
                     V.tag('failure_kind', failed[0])
-                    _checks(V, conn, got, failed, cp, final=False)
-                    continue
-                V.check(not failed[0], 'send-refused-after-failure')
+                    return
+                V.check(not was_dead, 'send-refused-after-failure')
                 outstanding[rid] = tag
             except ConnectionShutdown:
                 V.check(bool(failed[0]), 'send-only-refused-after-failure')
@@ -164,10 +182,11 @@ def _run(V, world, steps, nreq, with_cp):
         elif e == 'thread':
             DeferredThread.pending.pop(0).run_now()
         elif e == 'fail':
+            loop_busy = any(r in LOOP_EVENTS for r in running[:-1])
             kind = V.pick('failure', ['socket-error', 'decode-error', 'protocol-error', 'close'])
             victims = sorted(outstanding) + ([cp[0].stream_id] if cp[0] is not None else [])
-            if kind in ('decode-error', 'protocol-error') and not victims:
-                kind = 'socket-error'
+            if kind in ('decode-error', 'protocol-error') and (not victims or loop_busy):
+                kind = 'socket-error'       # (from another thread, e.g. a failed heartbeat, when the event loop is in the middle of something)
             failed[0] = kind
             V.tag('failure_kind', kind)
             if kind == 'socket-error':
@@ -188,14 +207,24 @@ def _run(V, world, steps, nreq, with_cp):
             s = e[1]
             tag = outstanding.pop(s)
             conn.process_msg(frame(s), _rows(tag))
+
+    if race:
+        # at any acquire/release of the connection's lock reached while the running thread holds no lock, another
+        # thread performs one event of its own: a send, a response, a failure of the connection, the offloaded error thread
+        pre = kit.Preempter(V, None, lambda *a: do('_pre%d' % pre.used), only_unlocked=True)
+        conn.lock = kit.SchedLock('connection.lock', pre)
+    for step in range(steps):
+        do(step)
         _checks(V, conn, got, failed, cp, final=False)
     while DeferredThread.pending:
         DeferredThread.pending.pop(0).run_now()
     # responses already in the socket buffer when the connection failed are still parsed
+    running.append('respond')           # (the event-loop thread)
     for s in sorted(outstanding):
         conn.process_msg(frame(s), _rows(outstanding[s]))
     if cp[0] is not None and failed[0]:
         conn.process_msg(frame(cp[0].stream_id), _rows('late-page'))
+    running.pop()
     _checks(V, conn, got, failed, cp, final=True)
     if failed[0]:
         try:
@@ -203,6 +232,9 @@ def _run(V, world, steps, nreq, with_cp):
             V.check(False, 'send-refused-after-failure')
         except ConnectionShutdown:
             V.check(True, 'send-refused-after-failure')
+
+
+LOOP_EVENTS = ('respond', 'cp-page', 'cp-start')
 
 
 def _is_conn_error(x):
@@ -245,5 +277,8 @@ def jobs(tier):
         js.append(Job('history-f%d' % first, 'h_history', dict(steps=7 if th else 5, nreq=4 if th else 3),
                       dict(o, pin={'ev1': first})))
     js.append(Job('history-rest', 'h_history', dict(steps=7 if th else 5, nreq=4 if th else 3), dict(o, pin_not={'ev1': [0, 1]})))
+    for first in range(3):
+        js.append(Job('race-f%d' % first, 'h_history', dict(steps=5 if th else 4, nreq=3 if th else 2, with_cp=False, race=True), dict(o, pin={'ev1': first})))
+    js.append(Job('race-cp', 'h_history', dict(steps=5 if th else 4, nreq=2, with_cp=True, race=True), dict(o, pin={'ev0': 0})))
     js.append(Job('no-cp', 'h_history', dict(steps=6 if th else 5, nreq=3, with_cp=False), o))
     return js
